@@ -33,6 +33,12 @@ struct World {
     lus: V<u32>,
     // the constructor trapped: the trace consists of one impossible observation (flagged by diff and monitor)
     dead: bool,
+    // generator-side tracking for the situation labels (never printed)
+    t_new: Option<usize>,      // addressee of the latest successful offer not yet cancelled / accepted
+    t_lu: Option<u32>,         // its own live_until
+    t_replaced: Option<usize>, // the addressee that offer replaced
+    t_cancelled: Option<usize>,
+    t_accepted: Option<usize>,
 }
 
 #[derive(Clone, Debug)]
@@ -62,8 +68,8 @@ impl World {
             ),
         }));
         match reg {
-            Ok(cid) => World { e, kind, cid, addrs, now: start, start, min_ttl, max_ttl, items: vec![], lus: vec![], dead: false },
-            Err(_) => { let e = Env::default(); let cid = Address::generate(&e); World { e, kind, cid, addrs: vec![], now: start, start, min_ttl, max_ttl, items: vec![], lus: vec![], dead: true } }
+            Ok(cid) => World { e, kind, cid, addrs, now: start, start, min_ttl, max_ttl, items: vec![], lus: vec![], dead: false, t_new: None, t_lu: None, t_replaced: None, t_cancelled: None, t_accepted: None },
+            Err(_) => { let e = Env::default(); let cid = Address::generate(&e); World { e, kind, cid, addrs: vec![], now: start, start, min_ttl, max_ttl, items: vec![], lus: vec![], dead: true, t_new: None, t_lu: None, t_replaced: None, t_cancelled: None, t_accepted: None } }
         }
     }
     fn header(&self) -> std::string::String {
@@ -110,6 +116,7 @@ impl World {
     fn exec(&mut self, out: &mut Out, c: &Call) -> bool {
         if self.dead { return false; }
         let e = self.e.clone();
+        let (holder0, pend0, now0) = (self.holder(), self.pending(), self.now);
         let (text, res, label): (std::string::String, Option<i128>, &str) = match c {
             Call::Offer(new, lu, au) => {
                 let newa = self.addrs[*new].clone();
@@ -157,7 +164,62 @@ impl World {
         let outs = match res { Some(v) => format!("(Ok {})", z(v)), None => "Fail".to_string() };
         out.case(&format!("{}/{}", label, if res.is_some() { "ok" } else { "fail" }), &format!("{} @{} {}", text, self.now, self.items.len()));
         self.items.push(format!("({}, {}, {})", text, outs, self.obs()));
+        self.situation(out, c, res.is_some(), holder0, pend0, now0);
         res.is_some()
+    }
+    /// situation labels (coverage gate) and the tracking behind them; uses only what was observed before the call
+    fn situation(&mut self, out: &mut Out, c: &Call, ok: bool, holder0: Option<usize>, pend0: Option<(usize, u32)>, now0: u32) {
+        let own_dead = self.t_lu.map(|l| l < now0).unwrap_or(false);
+        let signed_holder = |au: &V<usize>| holder0.map(|h| au.contains(&h)).unwrap_or(false);
+        match c {
+            Call::Offer(new, lu, au) if *lu != 0 => {
+                if ok {
+                    match pend0 { Some((_, l)) => out.label(if *lu < l { "offer-shorter-over-stored/ok" } else if *lu == l { "offer-equal-over-stored/ok" } else { "offer-longer-over-stored/ok" }), None => out.label("offer-fresh/ok") }
+                    if Some(*new) == holder0 { out.label("offer-to-self/ok"); }
+                    self.t_replaced = if pend0.is_some() { self.t_new } else { None };
+                    self.t_new = Some(*new); self.t_lu = Some(*lu); self.t_cancelled = None; self.t_accepted = None;
+                } else if !signed_holder(au) { out.label("offer-without-holder-auth/fail"); }
+                else if *lu < now0 { out.label("offer-live-until-past/fail"); }
+                else if *lu > now0 + self.max_ttl - 1 { out.label("offer-beyond-max/fail"); }
+                if ok && *lu == now0 { out.label("offer-live-until-now/ok"); }
+                if ok && *lu == now0 + self.max_ttl - 1 { out.label("offer-live-until-max/ok"); }
+            }
+            Call::Offer(new, _, au) => {
+                if ok { self.t_cancelled = self.t_new; self.t_new = None; self.t_lu = None; self.t_replaced = None; }
+                else if signed_holder(au) && pend0.map(|p| p.0 != *new).unwrap_or(false) { out.label("cancel-wrong-account/fail"); }
+                else if signed_holder(au) && pend0.is_none() { out.label("cancel-nothing-pending/fail"); }
+                else if !signed_holder(au) && pend0.is_some() { out.label("cancel-without-holder-auth/fail"); }
+            }
+            Call::Accept(au) => {
+                let by_addressee = self.t_new.map(|a| au.contains(&a)).unwrap_or(false);
+                if ok {
+                    if own_dead { out.label("accept-after-own-live-until/ok"); }
+                    if self.t_lu == Some(now0) { out.label("accept-at-live-until/ok"); }
+                    if au.len() >= 2 { out.label("accept-with-extra-signers/ok"); }
+                    self.t_accepted = self.t_new; self.t_new = None; self.t_lu = None; self.t_replaced = None; self.t_cancelled = None;
+                } else {
+                    if pend0.is_some() && !pend0.map(|p| au.contains(&p.0)).unwrap_or(false) { out.label("accept-unauthorised/fail"); }
+                    if pend0.is_none() && own_dead { out.label("accept-expired/fail"); }
+                    if pend0.is_none() && own_dead && by_addressee { out.label("accept-by-addressee-after-live-until/fail"); }
+                    if pend0.is_none() && by_addressee && self.t_lu.map(|l| l + 1 == now0).unwrap_or(false) { out.label("accept-by-addressee-at-live-until-plus-1/fail"); }
+                    if self.t_replaced.map(|a| au.contains(&a) && Some(a) != self.t_new).unwrap_or(false) && pend0.is_some() { out.label("accept-by-replaced-addressee/fail"); }
+                    if self.t_cancelled.map(|a| au.contains(&a)).unwrap_or(false) && pend0.is_none() { out.label("accept-after-cancel/fail"); }
+                    if self.t_accepted.map(|a| au.contains(&a)).unwrap_or(false) && pend0.is_none() { out.label("accept-twice/fail"); }
+                    if holder0.is_none() { out.label("accept-after-renounce/fail"); }
+                }
+            }
+            Call::Renounce(au) => {
+                if !ok && pend0.is_some() && signed_holder(au) { out.label(if own_dead { "renounce-in-known-window/fail" } else { "renounce-while-pending/fail" }); }
+                if ok && own_dead { out.label("renounce-after-expiry/ok"); }
+                if !ok && holder0.is_some() && !signed_holder(au) { out.label("renounce-without-holder-auth/fail"); }
+            }
+            Call::Guarded(au) => {
+                if ok && pend0.is_some() { out.label("guarded-while-pending/ok"); }
+                if !ok && holder0.is_none() { out.label("guarded-after-renounce/fail"); }
+                if !ok && pend0.map(|p| au.contains(&p.0)).unwrap_or(false) { out.label("guarded-by-pending/fail"); }
+            }
+            Call::Advance(_) => {}
+        }
     }
     fn flush(mut self, out: &mut Out, desc: &str) {
         if self.dead { out.label("constructor/trap"); self.items = vec!["(Advance 0%N, Fail, (Some 998%N, None))".to_string()]; }
@@ -167,16 +229,22 @@ impl World {
     }
 }
 
-/// authorisation subset for a call whose needed principal is `principal`
+/// authorisation subset for a call whose needed principal is `principal`: the principal alone, with one or two extra
+/// signers, duplicated, missing, somebody else, the counterpart (`alt`), everybody
 fn pick_auths(rng: &mut Rng, principal: Option<usize>, alt: Option<usize>, naddr: usize) -> V<usize> {
     let other = rng.below(naddr as u64) as usize;
+    let other2 = rng.below(naddr as u64) as usize;
     match (principal, rng.below(100)) {
-        (Some(p), 0..=64) => vec![p],
-        (Some(p), 65..=71) => { if other != p { vec![p, other] } else { vec![p] } }
-        (Some(p), 72..=76) => { if other != p { vec![other, p] } else { vec![p] } }
-        (_, 77..=83) => vec![],
-        (_, 84..=91) => match alt { Some(a) => vec![a], None => vec![other] },
-        _ => vec![other],
+        (Some(p), 0..=59) => vec![p],
+        (Some(p), 60..=65) => vec![p, other],
+        (Some(p), 66..=70) => vec![other, p],
+        (Some(p), 71..=73) => vec![other, other2, p],
+        (Some(p), 74..=75) => vec![p, p],
+        (Some(p), 76..=77) => match alt { Some(a) => vec![p, a], None => vec![p] },
+        (_, 78..=83) => vec![],
+        (_, 84..=91) => match alt { Some(a) if Some(a) != principal => vec![a], _ => if Some(other) != principal { vec![other] } else { vec![] } },
+        (Some(p), 92..=94) => (0..naddr).filter(|x| *x != p).collect(),
+        _ => if Some(other) != principal { vec![other] } else { vec![] },
     }
 }
 
@@ -184,7 +252,9 @@ fn pick_auths(rng: &mut Rng, principal: Option<usize>, alt: Option<usize>, naddr
 fn random_trace(out: &mut Out, rng: &mut Rng, kind: Kind, len: usize, desc: &str) {
     let naddr = 4usize;
     // host configurations: tiny / small max_entry_ttl, min_temp_entry_ttl 16, the test host's defaults, everything long-lived
-    let (min_ttl, max_ttl, min_persist) = match rng.below(12) { 0 | 1 => (1u32, 40u32, 40u32), 2 => (16, 5000, 4096), 3 => (1, 300, 300), 4 | 5 => (1, 6_312_000, 4096), 6 => (16, 8_000_000, 7_999_999), _ => (1, 5000, 4096) };
+    // min_temp_entry_ttl = 1 as C07 prescribes (with a larger minimum a short offer's entry outlives its live_until: the documented
+    // caveat of transfer_role, outside the property)
+    let (min_ttl, max_ttl, min_persist) = match rng.below(12) { 0 | 1 => (1u32, 40u32, 40u32), 2 | 3 => (1, 300, 300), 4 | 5 => (1, 6_312_000, 4096), 6 => (1, 8_000_000, 7_999_999), _ => (1, 5000, 4096) };
     let start = 100 + rng.below(50) as u32;
     let mut w = World::new_cfg(kind, naddr, start, min_ttl, max_ttl, min_persist);
     let mut last_lu: Option<u32> = None;
@@ -209,6 +279,7 @@ fn random_trace(out: &mut Out, rng: &mut Rng, kind: Kind, len: usize, desc: &str
             }
             if let Some(l) = last_lu { for d in [-1i64, 0, 1] { cands.push(l as i64 + d); } }
             for l in w.lus.iter().rev().take(3) { cands.push(*l as i64 + rng.range(-1, 1)); }
+            if rng.chance(1, 40) { cands.push(u32::MAX as i64); cands.push(u32::MAX as i64 - 1); }
             let mut lu = *rng.pick(&cands);
             if lu < 1 { lu = 1; }
             let au = pick_auths(rng, holder, pa, naddr);
@@ -219,7 +290,9 @@ fn random_trace(out: &mut Out, rng: &mut Rng, kind: Kind, len: usize, desc: &str
             let au = pick_auths(rng, holder, pa, naddr);
             Call::Offer(new, 0, au)
         } else if r < 58 {
-            let au = pick_auths(rng, pa.or(Some(rnd)), holder, naddr);
+            // the addressee (also after its offer lapsed), sometimes the replaced one
+            let who = if rng.chance(1, 8) { w.t_replaced.or(w.t_new) } else { pa.or(w.t_new) };
+            let au = pick_auths(rng, who.or(Some(rnd)), holder, naddr);
             Call::Accept(au)
         } else if r < 70 {
             let au = pick_auths(rng, holder, pa, naddr);
@@ -242,23 +315,8 @@ fn random_trace(out: &mut Out, rng: &mut Rng, kind: Kind, len: usize, desc: &str
                     else if !targets.is_empty() && rng.chance(3, 4) { (*rng.pick(&targets) - now as i64) as u32 } else { rng.below(4) as u32 };
             Call::Advance(k)
         };
-        // classification labels for the coverage gate (generator side only)
-        let own_dead = match (&call, last_lu) { (Call::Accept(_), Some(l)) => l < now, _ => false };
-        let ok = w.exec(out, &call);
-        match &call {
-            Call::Offer(_, lu, _) if ok && *lu != 0 => {
-                if let Some((_, l)) = pend { out.label(if *lu < l { "offer-shorter-over-stored/ok" } else { "offer-longer-over-stored/ok" }); } else { out.label("offer-fresh/ok"); }
-                last_lu = Some(std::cmp::max(*lu, now + min_ttl - 1));
-            }
-            Call::Offer(_, 0, _) if ok => { last_lu = None; }
-            Call::Accept(_) if ok => { if own_dead { out.label("accept-after-own-live-until/ok"); } last_lu = None; }
-            Call::Accept(au) if !ok => {
-                if let Some(p) = pa { if au.contains(&p) { out.label("accept-by-pending/fail"); } else { out.label("accept-unauthorised/fail"); } }
-                else if own_dead { out.label("accept-expired/fail"); }
-            }
-            Call::Renounce(au) if !ok => { if pend.is_some() && holder.map(|h| au.contains(&h)).unwrap_or(false) { out.label("renounce-while-pending/fail"); } }
-            _ => {}
-        }
+        w.exec(out, &call);
+        last_lu = w.t_lu;
     }
     w.flush(out, desc);
 }
@@ -295,7 +353,11 @@ fn main() {
         scripted(&mut out, kind, 100, 1, 5000, &[Offer(1, 0, vec![0]), Offer(1, 200, vec![0]), Offer(2, 0, vec![0]), Offer(1, 0, vec![1]), Offer(1, 0, vec![0]), Offer(1, 0, vec![0])], "corpus/cancel-guards");
         // live_until boundaries: past, now, max, max+1; second host configuration
         scripted(&mut out, kind, 100, 1, 40, &[Offer(1, 99, vec![0]), Offer(1, 100, vec![0]), Accept(vec![1]), Offer(2, 139, vec![1]), Offer(2, 140, vec![1]), Advance(39), Accept(vec![2]), Offer(3, 178, vec![2]), Advance(39), Accept(vec![3]), Advance(1), Accept(vec![3])], "corpus/live-until-bounds");
-        scripted(&mut out, kind, 100, 16, 5000, &[Offer(1, 101, vec![0]), Advance(15), Renounce(vec![0]), Advance(1), Accept(vec![1]), Renounce(vec![0])], "corpus/min-ttl-16");
+        // (min_temp_entry_ttl other than 1 is outside the property: see wf_header in Run/C07.v)
+        // aliasing and signer sets: offer to oneself (renounce must stay refused, cf. a pending offer to the owner itself), equal
+        // live_until over a stored entry, accept with extra and duplicated signers
+        scripted(&mut out, kind, 100, 1, 5000, &[Offer(0, 200, vec![0]), Renounce(vec![0]), Guarded(vec![0]), Accept(vec![0, 0]), Offer(1, 200, vec![0, 3]), Offer(2, 200, vec![3, 0]),
+                 Accept(vec![1, 3]), Accept(vec![3, 1, 2]), Guarded(vec![2]), Offer(2, 300, vec![2]), Renounce(vec![2]), Accept(vec![2]), Renounce(vec![2]), Accept(vec![2])], "corpus/self-offer-and-signer-sets");
         // offer expires, a later offer starts afresh (no F2 window)
         scripted(&mut out, kind, 100, 1, 5000, &[Offer(1, 110, vec![0]), Advance(11), Offer(2, 120, vec![0]), Advance(9), Accept(vec![1]), Advance(1), Accept(vec![2])], "corpus/expired-then-fresh");
     }
@@ -314,15 +376,16 @@ fn main() {
         let mut r = rng.fork(i as u64);
         random_trace(&mut out, &mut r, kind, len, &format!("random/{}", i));
     }
-    if thorough {
-        // exhaustive small scope: every sequence of length 5 over an 8-letter alphabet (relative to the current ledger)
+    {
+        // exhaustive small scope: every sequence of length 3 (quick) / 5 (thorough) over an 8-letter alphabet (relative to the current ledger)
+        let depth: u32 = if thorough { 5 } else { 3 };
         for kind in [Kind::Own, Kind::AC] {
             let nl = 8usize;
-            let total = nl.pow(5);
+            let total = nl.pow(depth);
             for code in 0..total {
                 let mut w = World::new(kind, 3, 100, 1, 5000);
                 let mut c = code;
-                for _ in 0..5 {
+                for _ in 0..depth {
                     let l = c % nl; c /= nl;
                     let now = w.now;
                     let call = match l {
@@ -331,7 +394,7 @@ fn main() {
                     };
                     w.exec(&mut out, &call);
                 }
-                w.flush(&mut out, &format!("exhaustive5/{}", code));
+                w.flush(&mut out, &format!("exhaustive{}/{}", depth, code));
             }
         }
     }
